@@ -64,6 +64,11 @@ func Params() []Param {
 			Param{Name: n, Args: []string{"1", "2", "3", "4", "5", "6", "7", "8", "9", "ten,10"}},
 			Param{Name: n, Args: []string{"1", "2", "3", "4", "5", "6", "7", "8", "9", ""}})
 	}
+	// positional parameters written with leading zeros are decimal all the same
+	for _, n := range []string{"08", "010", "09"} {
+		ps = append(ps, Param{Name: n}, Param{Name: n, Args: []string{"1", "2", "3", "4", "5", "6", "7", "8", "9", "ten,10"}},
+			Param{Name: n, Args: []string{"1", "2", "3", "4", "5", "6", "7", "", "9", ""}})
+	}
 	for _, n := range []string{"@", "*"} {
 		ps = append(ps, Param{Name: n}, Param{Name: n, Args: []string{""}}, Param{Name: n, Args: []string{"one"}},
 			Param{Name: n, Args: []string{"a", "bc"}}, Param{Name: n, Args: []string{"", "2", ""}}, Param{Name: n, Args: []string{"", ""}}, Param{Name: n, Args: []string{"a b", "c,d", "e:f"}})
@@ -91,7 +96,7 @@ func Product(f func(cs Case)) {
 								if op != "" && br {
 									continue
 								}
-								if op == "" && !br && p.Name == "10" {
+								if op == "" && !br && len(p.Name) > 1 && p.Name[0] >= '0' && p.Name[0] <= '9' {
 									continue // $10 is $1 followed by 0
 								}
 								var cs Case
